@@ -88,6 +88,7 @@ def execute(acc, case):
     sc = N.Scenario(seed=case["seed"], strategy=case["strategy"], p=case.get("p", 0.1), role=case["role"], apps=[16777251],
                     lines=case["strategy"] != "rr", max_steps=case.get("max_steps", 600_000), transport=case.get("transport", "TCP"))
     delivered = []
+    t_inject = [0.0]
     if case.get("transport") == "SCTP":
         acc.counters["sctp_executions"] += 1      # SctpClient/SctpServer over a fake pysctp module (bvm/vnet.py)
     wit = {"case": case, "chunks": chunks[:60], "kinds": kinds, "stream_len": len(stream)}
@@ -109,6 +110,11 @@ def execute(acc, case):
                     if m is None:
                         return
                     delivered.append(m)
+            if case.get("park_worker") is not None:
+                # park sweep of the library's own threads: the receive worker (or the transport thread) stands at its k-th source
+                # line while the next bytes arrive and are taken in by the other one
+                who, k = case["park_worker"]
+                sc.sched.parks.append({"task": who, "nth": k, "timeout": 0.05, "release": lambda: not sc.node_sock.rx and sc.sched.now > t_inject[0] > 0})
             if case.get("park") is not None:
                 # park sweep (DESIGN 2.5b): the application thread is descheduled at its n-th source line inside get_message()
                 # until the state machine has handed over every message of the sequence (or one virtual second has passed)
@@ -117,13 +123,19 @@ def execute(acc, case):
             sc.sched.spawn("consumer", consumer)
             expected_app = [k for k in kinds if k[0] == "APP"]
             expected_dwr = [k[1] for k in kinds if k[0] == "DWR"]
+            t_inject[0] = sc.sched.now + 1e-9
             sc.inject(stream, chunks=chunks, settle=case.get("settle", True))
             done = lambda: len(delivered) >= len(expected_app) and len([c for c in sc.consumed if c[0] == "Open"]) >= len(kinds)
             t_last_byte = sc.sched.now
             ok = sc.sched.run_until(done, 3.0, "delivery")
             sc.sched.run_until(lambda: False, 0.01, "grace")     # a little longer: duplicates would show up now
             acc.counters["executions"] += 1
-            if sc.sched.parked_at:
+            if sc.sched.parked_at and case.get("park_worker"):
+                acc.counters["library_thread_parked_while_bytes_arrive"] += 1
+                acc.extra.setdefault("parked_at", {})
+                kk = "%s@%s" % sc.sched.parked_at[0]
+                acc.extra["parked_at"][kk] = acc.extra["parked_at"].get(kk, 0) + 1
+            elif sc.sched.parked_at:
                 acc.counters["consumer_parked_while_messages_arrive"] += 1
                 acc.extra.setdefault("parked_at", {})
                 acc.extra["parked_at"][sc.sched.parked_at[0][1]] = acc.extra["parked_at"].get(sc.sched.parked_at[0][1], 0) + 1
@@ -245,6 +257,11 @@ def plan(tier, seed):
         for seg in (["whole"] if q else ["whole", "per-message", "header-internal"]):
             cases.append({"seed": seed * 31 + nth, "n": 5, "seg": seg, "strategy": "rw", "p": 0.02, "role": ("client", "server")[nth % 2],
                           "settle": False, "park": nth})
+    for who, span in (("recv_message_monitor", 60), ("transport_layer_thread", 50)):
+        for k in range(0, span, 2 if q else 1):
+            for seg in (["per-message"] if q else ["per-message", "header-internal", "whole"]):
+                cases.append({"seed": seed * 37 + k, "n": 5, "seg": seg, "strategy": "rw", "p": 0.02, "role": ("client", "server")[k % 2],
+                              "settle": False, "park_worker": [who, k]})
     for i in range(2 if q else 40):
         cases.append({"seed": seed * 977 + i, "n": 4, "big": True, "seg": rng.choice(["whole", "random"]), "strategy": "rr",
                       "role": "client", "recv_cap": rng.choice([None, 65536])})
@@ -265,7 +282,7 @@ def main(tier, seed):
                           ["vnet is a model of Linux TCP sockets (fidelity self-test in tools/selftest_vnet.py); schedules are explored at "
                            "synchronisation-operation and source-line granularity of transport.py/setup.py/statemachine.py",
                            "bounded progress: all messages delivered within 3 virtual seconds after the last byte (the unchanged code needs milliseconds)"],
-                          t0, require_counters=("executions", "steps", "recv_chunks", "real_loopback_ok", "consumer_parked_while_messages_arrive"))
+                          t0, require_counters=("executions", "steps", "recv_chunks", "real_loopback_ok", "consumer_parked_while_messages_arrive", "library_thread_parked_while_bytes_arrive"))
 
 
 def replay(w):
